@@ -207,7 +207,12 @@ def main():
         elif v == "refuted":
             args = replay_cmdline(nmfu, m, order, level)
             res, bad = check_concrete(nmfu, args, None)
-            replayed = any(b.startswith(clause) for b in bad) or clause == "*"
+            replayed = any(b.startswith(clause) for b in bad) or (clause == "*" and res[0] not in ("ok", "RuntimeError", "SystemExit"))
+            if not replayed and clause in ("implies", "exclusive", "explicit-conflict", "override-on-lost", "override-off-lost", "*"):
+                # the counter-model is a complete input of a deterministic function and the real function satisfies this very clause on it:
+                # the refutation comes from an imprecision of the engine's model of the code, not from the code -> no verdict
+                rep.undecided_ob(oid, f"z3 counter-model `{' '.join(args)}` does not fail on the real function (spurious refutation: engine imprecision)")
+                return
             rep.failed_ob(Finding(PROP, oid, f"{clause}|{' '.join(args)}" if replayed else f"{oid}",
                                   f"{describe}; counterexample command line: {' '.join(args)} -> real function: {res[0]}; violated clauses on replay: {bad}",
                                   replay={"args": args, "real_result": res, "violated": bad}, replayed=replayed,
@@ -339,6 +344,9 @@ def main():
             for kind, oid, backend, secs, payload in res:
                 if kind == "proved":
                     rep.discharged_ob(oid, backend, secs)
+                elif kind == "refuted" and not payload["replayed"]:
+                    # both command lines give the same result on the real function: the counter-model is spurious (engine imprecision) -> no verdict
+                    rep.undecided_ob(oid, "z3 counter-model of order dependence does not show on the real function: " + payload["what"][:200])
                 elif kind == "refuted":
                     rep.failed_ob(Finding(PROP, oid, payload["signature"], payload["what"], replay=payload["replay"], replayed=payload["replayed"]))
                 else:
